@@ -494,7 +494,9 @@ inline void enumerateDetailed(bool thorough, Mode mode, const std::function<void
         for (auto &nt : u.nets)
           for (auto &p : nt.pins) p[0] += 1;
       f(u);
-      if (thorough || mode == M_C04) {
+      bool hasPolarity = false;
+      for (auto &cs : u.cells) hasPolarity |= cs.polarity != 0;
+      if (thorough || mode == M_C04 || hasPolarity) {
         Spec v = u;
         v.devs.push_back({F_reorderingMaxNbCells, 3});
         v.devs.push_back({F_reorderingNbRows, 2});
@@ -504,9 +506,33 @@ inline void enumerateDetailed(bool thorough, Mode mode, const std::function<void
   });
   // polarity as a primary dimension (C04): every polarity tuple on row-high and 2-row cells
   if (mode == M_C04 || thorough) {
+    // two cells: both may be multi-row, positions include outside the rows (cells pushed sideways by the macro pass)
+    Cfg p2;
+    p2.rhs = {2};
+    p2.minCells = 2;
+    p2.maxCells = 2;
+    p2.widths = {1, 2};
+    p2.hmults = thorough ? std::vector<int>{1, 2, 3} : std::vector<int>{1, 2};
+    p2.maxTall = 2;
+    p2.pointLevel = 1;
+    p2.nondecreasing = false;
+    p2.thoroughLayouts = thorough;
+    enumerateBase(p2, [&](const Spec &base, const Layout &, int) {
+      for (int pa = 0; pa < 5; ++pa)
+        for (int pb = 0; pb < 5; ++pb) {
+          if (pa == 0 && pb == 0) continue;
+          Spec s = base;
+          s.cells[0].polarity = pa;
+          s.cells[1].polarity = pb;
+          NetSpec nt; nt.pins = {{0, 0, 0}, {1, 1, 0}};
+          s.nets = {nt};
+          s.aux = 0;
+          f(s);
+        }
+    });
     Cfg p;
     p.rhs = {2};
-    p.minCells = 2;
+    p.minCells = 3;
     p.maxCells = 3;
     p.widths = {1, 2};
     p.hmults = {1, 2};
@@ -529,6 +555,138 @@ inline void enumerateDetailed(bool thorough, Mode mode, const std::function<void
         v.devs.push_back({F_reorderingMaxNbCells, 3});
         v.devs.push_back({F_reorderingNbRows, 2});
         f(v);
+      }
+    });
+  }
+  // attractor nets: every cell is pulled towards one of four fixed terminals at the corners of the rows (or towards
+  // nothing), so that every cross-row / cross-segment preference of the optimiser is exercised, with and without
+  // multi-row reordering windows, for every polarity tuple
+  {
+    Cfg at;
+    at.rhs = {2};
+    at.minCells = 2;
+    at.maxCells = thorough ? 3 : 2;
+    at.widths = {1, 2};
+    at.hmults = {1};
+    at.pointLevel = 0;
+    at.nondecreasing = false;
+    at.thoroughLayouts = false;
+    at.layoutFilter = {1, 2, 5, 6, 8, 12};
+    enumerateBase(at, [&](const Spec &base, const Layout &l, int rh) {
+      int n = base.cells.size();
+      if (n == 3) {  // three cells: only the two diagonal position tuples
+        bool d1 = true, d2 = true;
+        auto P = pointSet(l, rh, 0);
+        for (int i = 0; i < n; ++i) {
+          if (base.cells[i].x != P[i % P.size()].first || base.cells[i].y != P[i % P.size()].second) d1 = false;
+          if (base.cells[i].x != P[(n - 1 - i) % P.size()].first || base.cells[i].y != P[(n - 1 - i) % P.size()].second) d2 = false;
+        }
+        if (!d1 && !d2) return;
+      }
+      std::vector<int> polRadix(n, 5), atRadix(n, 5);
+      for (vf::Odometer po(polRadix); !po.done; po.next()) {
+        int nonAny = 0;
+        for (int i = 0; i < n; ++i) nonAny += po.v[i] != 0;
+        if (mode == M_C05 && nonAny > 0) continue;  // C05: orientation flips are the recorded finding; keep the cells free
+        if (n == 3 && nonAny > 2) continue;
+        for (vf::Odometer ao(atRadix); !ao.done; ao.next()) {
+          bool any = false;
+          for (int i = 0; i < n; ++i) any |= ao.v[i] != 0;
+          if (!any) continue;
+          Spec s = base;
+          for (int i = 0; i < n; ++i) s.cells[i].polarity = po.v[i];
+          int top = l.y0 + (l.nY - 1) * rh;
+          int tx[4] = {l.x0 - 1, l.x0 + l.W + 1, l.x0 - 1, l.x0 + l.W + 1}, ty[4] = {l.y0, l.y0, top, top};
+          for (int k = 0; k < 4; ++k) { CellSpec t; t.w = 0; t.h = 0; t.x = tx[k]; t.y = ty[k]; t.fixed = true; s.cells.push_back(t); }
+          for (int i = 0; i < n; ++i)
+            if (ao.v[i]) { NetSpec nt; nt.pins = {{i, 0, 0}, {n + ao.v[i] - 1, 0, 0}}; s.nets.push_back(nt); }
+          s.aux = 0;
+          f(s);
+          Spec v = s;
+          v.devs.push_back({F_reorderingMaxNbCells, 3});
+          v.devs.push_back({F_reorderingNbRows, 2});
+          f(v);
+        }
+      }
+    });
+  }
+  // multi-row reordering windows only evaluate assignments in which every region holds at least two cells in a
+  // non-ascending order, so they need four cells and reorderingMaxNbCells >= 4 to do anything: two rows, four
+  // row-high cells, every position tuple, one polarised cell pulled to a corner (+ optionally a second pulled cell)
+  {
+    Cfg r4;
+    r4.rhs = {2};
+    r4.minCells = 4;
+    r4.maxCells = 4;
+    r4.widths = {1, 2};
+    r4.hmults = {1};
+    r4.pointLevel = 0;
+    r4.nondecreasing = false;
+    r4.layoutFilter = thorough ? std::vector<int>{1, 6, 8, 12} : std::vector<int>{1, 12};
+    enumerateBase(r4, [&](const Spec &base, const Layout &l, int rh) {
+      int n = 4;
+      // widths: all 1, all 2, or 1,2,1,2
+      int w0 = base.cells[0].w, w1 = base.cells[1].w, w2 = base.cells[2].w, w3 = base.cells[3].w;
+      bool uniform = w0 == w1 && w1 == w2 && w2 == w3, alt = w0 == 1 && w1 == 2 && w2 == 1 && w3 == 2;
+      if (!uniform && !alt) return;
+      int top = l.y0 + (l.nY - 1) * rh;
+      int tx[4] = {l.x0 - 1, l.x0 + l.W + 1, l.x0 - 1, l.x0 + l.W + 1}, ty[4] = {l.y0, l.y0, top, top};
+      auto emit = [&](int polCell, int pol, int a1, int otherCell, int a2) {
+        Spec s = base;
+        if (polCell >= 0) s.cells[polCell].polarity = pol;
+        for (int k = 0; k < 4; ++k) { CellSpec t; t.w = 0; t.h = 0; t.x = tx[k]; t.y = ty[k]; t.fixed = true; s.cells.push_back(t); }
+        if (polCell >= 0 || a1 > 0) { NetSpec nt; nt.pins = {{std::max(polCell, 0), 0, 0}, {n + a1 - 1, 0, 0}}; s.nets.push_back(nt); }
+        if (otherCell >= 0) { NetSpec nt; nt.pins = {{otherCell, 0, 0}, {n + a2 - 1, 0, 0}}; s.nets.push_back(nt); }
+        s.devs.push_back({F_reorderingMaxNbCells, 4});
+        s.devs.push_back({F_reorderingNbRows, 2});
+        s.aux = 0;
+        f(s);
+      };
+      if (mode != M_C05)
+        for (int pc = 0; pc < n; ++pc)
+          for (int pol = 1; pol <= 4; ++pol)
+            for (int a1 = 1; a1 <= 4; ++a1) {
+              emit(pc, pol, a1, -1, 0);
+              for (int oc = 0; oc < n; ++oc)
+                for (int a2 = 1; a2 <= 4; ++a2)
+                  if (oc != pc && (thorough || (oc + a2 + a1) % 2 == 0)) emit(pc, pol, a1, oc, a2);
+            }
+      // no polarity: cell 0 (and one other) pulled
+      for (int a1 = 1; a1 <= 4; ++a1)
+        for (int oc = 1; oc < n; ++oc)
+          for (int a2 = 1; a2 <= 4; ++a2) emit(-1, 0, a1, oc, a2);
+    });
+  }
+  // total wirelength beyond 2^31 inside the supported magnitude range: many long nets between fixed terminals
+  if (mode == M_C05) {
+    Cfg lg;
+    lg.rhs = {2};
+    lg.minCells = 3;
+    lg.maxCells = 3;
+    lg.widths = {1, 2};
+    lg.hmults = {1};
+    lg.pointLevel = 0;
+    lg.diagonalPositionsOnly = true;
+    lg.layoutFilter = {0, 1, 6};
+    enumerateBase(lg, [&](const Spec &base, const Layout &, int) {
+      Spec s = base;
+      int n = s.cells.size();
+      auto menu = netMenu(s, 1);
+      for (size_t k = 1; k < menu.size(); ++k) {
+        Spec t = s;
+        t.nets = menu[k];
+        CellSpec a, b;
+        a.w = a.h = 0; a.fixed = true; a.x = -(1 << 22); a.y = -(1 << 22);
+        b = a; b.x = (1 << 22); b.y = (1 << 22);
+        t.cells.push_back(a);
+        t.cells.push_back(b);
+        for (int i = 0; i < 140; ++i) { NetSpec nt; nt.pins = {{n, 0, 0}, {n + 1, 0, 0}}; t.nets.push_back(nt); }
+        t.aux = 0;
+        for (int reorder = 0; reorder < 2; ++reorder) {
+          Spec u = t;
+          if (reorder) { u.devs.push_back({F_reorderingMaxNbCells, 3}); u.devs.push_back({F_reorderingNbRows, 2}); }
+          f(u);
+        }
       }
     });
   }
